@@ -47,11 +47,39 @@ theorem rewrite_step_sim {st : St} {l : Layout.State} (good : Good true st) (r :
     rw [this] at q2
     exact ⟨h3.symm, l', q1, q2, q3, q4⟩
 
+/-- the rewrite of a placed statement leaves the cursor of the active region where it is -/
+theorem writeStmt_cursor {s : Seg.State} (inv : Seg.Inv s) {addr : Nat} {d : Bytes} (hp : (addr, d.length) ∈ s.pending)
+    {s' : Seg.State} {p' : Bool} {e : Option Seg.Diag} (h : writeStmt s true addr d = .ok (s', p', e)) :
+    (s'.active.map fun a => a.base + a.buf.length) = s.active.map fun a => a.base + a.buf.length := by
+  unfold writeStmt at h
+  simp only [Bool.not_true, Bool.false_and, Bool.false_eq_true, if_false] at h
+  obtain ⟨_, hsr⟩ := segStep_rewrite inv addr d hp
+  cases hs : segStep s (.rewrite addr d) with
+  | stop x => rw [hs] at h; cases h
+  | ok p =>
+    obtain ⟨s1, o⟩ := p
+    rw [hs] at h
+    obtain ⟨ho, _, _, hstep⟩ := hsr _ _ hs
+    subst ho
+    simp only [Out.ok.injEq, Prod.mk.injEq] at h
+    obtain ⟨h1, _, _⟩ := h
+    subst h1
+    have hstep' : Seg.rewrite s addr d = (s1, .ok) := hstep
+    rcases rewrite_shape inv addr d hp with ⟨seg, buf', ha, _, _, _, _, hrw, hlen, _⟩ | ⟨_, _, m', hrw, _⟩
+    · rw [hrw] at hstep'
+      simp only [Prod.mk.injEq, and_true] at hstep'
+      subst hstep'
+      simp only [ha, Option.map_some, hlen]
+    · rw [hrw] at hstep'
+      simp only [Prod.mk.injEq, and_true] at hstep'
+      subst hstep'
+      rfl
+
 theorem runTask_sim (henc : EncLen enc) {st st' : St} {l : Layout.State} (ts : TSim num t₂ G Gt st l) (env : Env)
     (henv : env.paths.isEmpty = false) (task : Task) (lt : Layout.Task) (hrel : TaskRel num enc t₂ task lt)
     (hok : TaskOk st.seg.pending task) (h : runTask enc env st task = .ok (st', .ok)) :
     ∃ l', l.env.hasAll lt.deps = true ∧ Layout.rewrite l lt.addr lt.final = .ok l' ∧ TSim num t₂ G Gt st' l' ∧
-      st'.seg.pending = st.seg.pending := by
+      st'.seg.pending = st.seg.pending ∧ cursor st' = cursor st := by
   have hsafe := (runTask_safe henc ts.good (by simpa using henv) task hok (fun hh => by cases hh)).2 _ _ h
   cases task with
   | globalCopy n l c => exact hrel.elim
@@ -132,8 +160,9 @@ theorem runTask_sim (henc : EncLen enc) {st st' : St} {l : Layout.State} (ts : T
                     subst ho
                     simp only [Out.ok.injEq, Prod.mk.injEq] at hws
                     rw [← hws.1]; exact hp3
+                have hcurW := writeStmt_cursor ts.good.inv (by rw [hbl]; exact hpend) hws
                 refine ⟨l', hall, by rw [haddr, hfin]; exact q1,
-                  ⟨hsafe.1, q2, ts.loc, ts.nodef, by rw [q3']; exact ts.env, ts.lq, ts.gl⟩, hpend'⟩
+                  ⟨hsafe.1, q2, ts.loc, ts.nodef, by rw [q3']; exact ts.env, ts.lq, ts.gl⟩, hpend', hcurW⟩
   | data d g =>
     obtain ⟨hg, hpl, haddr, hlen, a, t₁, n, hsub, hnd₁, hplain, hfirst, hdeps, hfinal⟩ := hrel
     subst hg
@@ -217,8 +246,9 @@ theorem runTask_sim (henc : EncLen enc) {st st' : St} {l : Layout.State} (ts : T
                       subst ho
                       simp only [Out.ok.injEq, Prod.mk.injEq] at hws
                       rw [← hws.1]; exact hp3
+                  have hcurW := writeStmt_cursor ts.good.inv (by rw [hbl]; exact hpend) hws
                   refine ⟨l', hall, by rw [haddr, hfin]; exact q1,
-                    ⟨hsafe.1, q2, ts.loc, ts.nodef, by rw [q3']; exact ts.env, ts.lq, ts.gl⟩, hpend'⟩
+                    ⟨hsafe.1, q2, ts.loc, ts.nodef, by rw [q3']; exact ts.env, ts.lq, ts.gl⟩, hpend', hcurW⟩
               · rw [if_neg hv] at hw; simp at hw
             | _ => simp at hw
 
@@ -228,13 +258,13 @@ theorem localRound_sim (henc : EncLen enc) (env : Env) (henv : env.paths.isEmpty
     ∀ (ts : List Task) (lts : List Layout.Task) (st st' : St) (l : Layout.State) (res res' : Res),
       TSim num t₂ G Gt st l → TasksRel num enc t₂ ts lts → (∀ t ∈ ts, TaskOk st.seg.pending t) →
       localRound enc env ts st res = .ok (st', res') → st'.errors = [] →
-      ∃ l', Layout.runTasks l lts = .ok l' ∧ TSim num t₂ G Gt st' l' ∧ res' = res := by
+      ∃ l', Layout.runTasks l lts = .ok l' ∧ TSim num t₂ G Gt st' l' ∧ res' = res ∧ cursor st' = cursor st := by
   intro ts
   induction ts with
   | nil =>
     intro lts st st' l res res' tsim hrel _ h _
     cases lts with
-    | nil => simp only [localRound] at h; cases h; exact ⟨l, rfl, tsim, rfl⟩
+    | nil => simp only [localRound] at h; cases h; exact ⟨l, rfl, tsim, rfl, rfl⟩
     | cons u us => exact hrel.elim
   | cons t ts ih =>
     intro lts st st' l res res' tsim hrel hok h herr
@@ -254,10 +284,10 @@ theorem localRound_sim (henc : EncLen enc) (env : Env) (henv : env.paths.isEmpty
           have g := (localRound_grew ts st1 res st' res' h).1
           have herr1 : st1.errors = [] := by
             rw [herr] at g; exact List.eq_nil_of_length_eq_zero (by simpa using g)
-          obtain ⟨l1, h1, h2, h3, h4⟩ := runTask_sim henc tsim env henv t u hr1 (hok t List.mem_cons_self) hrt
-          obtain ⟨l', f1, f2, f3⟩ := ih us st1 st' l1 res res' h3 hr2
+          obtain ⟨l1, h1, h2, h3, h4, h5⟩ := runTask_sim henc tsim env henv t u hr1 (hok t List.mem_cons_self) hrt
+          obtain ⟨l', f1, f2, f3, f4⟩ := ih us st1 st' l1 res res' h3 hr2
             (fun x hx => by rw [h4]; exact hok x (List.mem_cons_of_mem _ hx)) h herr
-          exact ⟨l', by simp only [Layout.runTasks, h1, if_true, h2]; exact f1, f2, f3⟩
+          exact ⟨l', by simp only [Layout.runTasks, h1, if_true, h2]; exact f1, f2, f3, f4.trans h5⟩
         | err lv =>
           exfalso
           have g1 := runTask_grew _ _ hrt
@@ -274,7 +304,7 @@ theorem localLoop_sim (henc : EncLen enc) (env : Env) (henv : env.paths.isEmpty 
     (lts : List Layout.Task) (st st' : St) (l : Layout.State) (res' : Res) (tsim : TSim num t₂ G Gt st l)
     (hrel : TasksRel num enc t₂ ts lts) (hok : ∀ t ∈ ts, TaskOk st.seg.pending t)
     (h : localLoop enc env (n + 2) ts st .ok = .ok (st', res')) (herr : st'.errors = []) :
-    ∃ l', Layout.runTasks l lts = .ok l' ∧ TSim num t₂ G Gt st' l' := by
+    ∃ l', Layout.runTasks l lts = .ok l' ∧ TSim num t₂ G Gt st' l' ∧ cursor st' = cursor st := by
   rw [show n + 2 = (n + 1) + 1 from rfl, localLoop] at h
   split at h
   · rename_i hemp
@@ -282,7 +312,7 @@ theorem localLoop_sim (henc : EncLen enc) (env : Env) (henv : env.paths.isEmpty 
     have : ts = [] := List.isEmpty_iff.mp hemp
     subst this
     cases lts with
-    | nil => exact ⟨l, rfl, tsim⟩
+    | nil => exact ⟨l, rfl, tsim, rfl⟩
     | cons u us => exact hrel.elim
   · cases hlr : localRound enc env ts st .ok with
     | stop r => rw [hlr] at h; cases h
@@ -301,7 +331,7 @@ theorem localLoop_sim (henc : EncLen enc) (env : Env) (henv : env.paths.isEmpty 
           · have g := (localLoop_grew _ _ _ _ _ _ h).1
             rw [herr] at g
             exact List.eq_nil_of_length_eq_zero (by simpa using g)
-        obtain ⟨l', f1, f2, f3⟩ := localRound_sim henc env henv ts lts st st1 l .ok res1 tsim hrel hok hlr herr1
+        obtain ⟨l', f1, f2, f3, f4⟩ := localRound_sim henc env henv ts lts st st1 l .ok res1 tsim hrel hok hlr herr1
         have hn : new = [] := by have := f2.lq; rw [hnew] at this; cases this; rfl
         subst hn
         have heta : ({ st1 with localTasks := some [] } : St) = st1 := by
@@ -310,7 +340,7 @@ theorem localLoop_sim (henc : EncLen enc) (env : Env) (henv : env.paths.isEmpty 
         subst f3
         simp only [Res.aborts, Bool.false_eq_true, if_false, localLoop, List.isEmpty_nil, if_true] at h
         cases h
-        exact ⟨l', f1, f2⟩
+        exact ⟨l', f1, f2, f4⟩
 
 end
 
